@@ -71,11 +71,13 @@ def check(prop: str, tier: str, seed: int, nshards: int = 16, scale: float = 1.0
     rdir = os.path.join(VERIF, "replays", prop)
     replays_rerun = 0
     if os.path.isdir(rdir):
-        for fn in sorted(os.listdir(rdir)):
-            if not fn.endswith(".json") or fn.startswith("found-"):
-                continue
+        import concurrent.futures
+
+        names = [fn for fn in sorted(os.listdir(rdir)) if fn.endswith(".json") and not fn.startswith("found-")]
+        with concurrent.futures.ThreadPoolExecutor(max_workers=8) as pool:  # each replay is a fresh interpreter of its own
+            outcomes = list(pool.map(lambda fn: run_replay_file(prop, os.path.join(rdir, fn), repo), names))
+        for fn, (status, rec) in zip(names, outcomes):
             path = os.path.join(rdir, fn)
-            status, rec = run_replay_file(prop, path, repo)
             replays_rerun += 1
             sig = (rec or {}).get("signature")
             if status == "pass":
